@@ -39,6 +39,11 @@ def run(ctx):
                 evs.append(fmt.roundtrip_event(p, spec, w=True))
             if k == 3:          # history on one synth: save, edit in place, save, load, edit the loaded synth, save
                 evs += fmt.chain_events(api.Synth(mod), spec, rnd, w=True)[0][1:]
+            if k == 5 and fmt.projection.payload(cl[t](), spec)["k"] in ("arrays", "multictl", "wave", "fmx"):
+                # a FRESH module whose array payloads are edited element by element (they start out as the documented defaults)
+                fm = cl[t]()
+                fmt.edit_in_place(api.Synth(fm), spec, rnd, 8)
+                evs.append(fmt.roundtrip_event(api.Synth(fm), spec, w=True))
             if k == 4:          # a synth wrapped around a module that lives in a project
                 pp = mod.parent or api.Project()
                 pp.attach_module(mod)
